@@ -183,6 +183,31 @@ def front_ends_agree(ctx, idx, kind, src):
                           "diagnostics" if ref.get("status") != "ok" else "no diagnostic", "%d diagnostics" % n)
         else:
             ctx.count("front_ends_agree")
+        if ref.get("status") == "ok" and srv.alive():
+            # the same sources reached through an edit: the buffer is first a rejected text (each phase in turn), the
+            # server shows it, then the buffer becomes the accepted source again: no diagnostic may remain
+            for bad_kind, bad_src in [r for r in REJECTED if not r[0].startswith("import")][idx % 3::3]:
+                srv.change(uri, [{"text": bad_src}], version=5)
+                srv.pos_request("textDocument/definition", uri, 0, 0)
+                srv.drain(0.05)
+                shown = sum(len(d) for d in srv.diags.values())
+                srv.change(uri, [{"text": src}], version=6)
+                r = srv.pos_request("textDocument/definition", uri, 0, 0)
+                srv.drain(0.05)
+                ctx.cov["evaluations"] += 1
+                left = sum(len(d) for d in srv.diags.values())
+                if "dead" in r or not srv.alive():
+                    ctx.violation("the language server dies on these sources", dict(inp, through=bad_kind), "alive", "".join(srv.stderr[-3:])[:300])
+                    break
+                if shown == 0:
+                    ctx.violation("the language server publishes no diagnostic for sources the other front ends reject", {"kind": bad_kind, "source": bad_src},
+                                  "diagnostics", "0 diagnostics")
+                    break
+                if left != 0:
+                    ctx.violation("the language server still publishes a diagnostic although the sources (reached by an edit that repairs a rejected "
+                                  "buffer) are accepted by the other front ends", dict(inp, through=bad_kind, rejected_buffer=bad_src), "no diagnostic", "%d diagnostics" % left)
+                    break
+                ctx.count("repaired_buffers_clear")
     finally:
         srv.stop()
 
